@@ -27,7 +27,7 @@ func init() { core.Register(c05{}) }
 
 func (c05) ID() string { return "C05" }
 func (c05) Rule() string {
-	return "plans: chain length 1-4 with unique subject tokens, a result vector in {OK, NonRevokable, Unknown, Revoked}^n with method annotations (OCSP, CRL, OCSP-fallback-CRL) and per-server errors, or a validator-level error (scripted or injected at the validator's fault point), or a mis-sized answer (nil / shorter than the chain, nil error); context-aware validator or deprecated client; revocation action enforce / log / skip; scheme notary.x509 or signing-authority; JWS / COSE. non-trivial: the vector is not all-OK or the answer is faulty; distinct: hash of (vector, methods, fault, interface, action, scheme, verdict)"
+	return "plans: chain length 1-4 with unique subject tokens, a result vector in {OK, NonRevokable, Unknown, Revoked}^n with method annotations (OCSP, CRL, OCSP-fallback-CRL) and per-server errors, or a validator-level error (scripted or injected at the validator's fault point), or a mis-sized answer (nil / shorter than the chain, nil error); context-aware validator or deprecated client; revocation action enforce / log / skip; scheme notary.x509 or signing-authority; JWS / COSE. 1-3 rounds on one long-lived verifier, the validator's answers changing between rounds (a certificate revoked later, the service failing later, recovering later). non-trivial: the vector is not all-OK or the answer is faulty; distinct: hash of (vector, methods, fault, interface, action, scheme, verdict)"
 }
 func (c05) Components() map[string]string {
 	return map[string]string{
@@ -60,11 +60,11 @@ func (c05) Gen(r *rand.Rand, tier string, idx int) *core.Plan {
 		}
 		p.Ops = append(p.Ops, core.Op{Kind: "cert", I: []int64{res, int64(r.IntN(3)), later(), later()}})
 	}
-	w["answer"] = int64(core.Pick(r, 0, 0, 0, 0, 0, 1, 2, 3)) // 0 vector 1 validator error 2 nil,nil 3 short
+	w["answer"] = int64(core.Pick(r, 0, 0, 0, 0, 0, 1, 2, 3, 4)) // 0 vector 1 validator error 2 nil,nil 3 short 4 error together with a full vector
 	// the same long-lived verifier checks the same chain again while the world moves on
 	w["rounds"] = int64(core.Pick(r, 1, 1, 2, 3))
-	w["answer1"] = int64(core.Pick(r, 0, 0, 0, 1, 2, 3))
-	w["answer2"] = int64(core.Pick(r, 0, 0, 0, 1, 2, 3))
+	w["answer1"] = int64(core.Pick(r, 0, 0, 0, 1, 2, 3, 4))
+	w["answer2"] = int64(core.Pick(r, 0, 0, 0, 1, 2, 3, 4))
 	w["short"] = int64(r.IntN(4))
 	w["legacy"] = int64(r.IntN(2))
 	w["action"] = int64(core.Pick(r, 0, 0, 1, 2)) // enforce log skip
@@ -135,11 +135,13 @@ func (l c05) Exec(env *core.Env) *core.Result {
 			for len(vector) < n {
 				vector = append(vector, revresult.ResultOK)
 			}
-			val.Results, val.Err, val.Short, val.Calls, val.Legacy = vector, nil, 0, nil, 0
+			val.Results, val.Err, val.ErrWithResults, val.Short, val.Calls, val.Legacy = vector, nil, false, 0, nil, 0
 			answer := w[[]string{"answer", "answer1", "answer2"}[k]]
 			switch answer {
 			case 1:
 				val.Err = errors.New("simulated: validator failed")
+			case 4: // the error comes together with a complete result vector
+				val.Err, val.ErrWithResults = errors.New("simulated: refresh failed, results may be stale"), true
 			case 2:
 				val.Short = -1
 			case 3:
